@@ -21,12 +21,12 @@ end
 /-- Bytes that have logically left the program: what the writer holds plus what is buffered. -/
 def cont (b : BW) : Bytes := b.u.accepted ++ b.buf
 
-theorem under_write_spec (u : Under) (p : Bytes) (u' : Under) (n : Nat) (e : Bool)
+theorem under_write_raw (u : Under) (p : Bytes) (u' : Under) (n : Nat) (e : Bool)
     (h : u.write p = (u', n, e)) :
     u'.accepted = u.accepted ++ p.take n ∧
-    (e = false → n = p.length) ∧
+    n ≤ p.length ∧
     u'.limit = u.limit ∧
-    (u.limit = none → e = false) ∧
+    (u.limit = none → e = false ∧ n = p.length) ∧
     (∀ k a0, u.limit = some k → (u.accepted = a0 ∨ u.accepted.length ≤ k) →
       (u'.accepted = a0 ∨ u'.accepted.length ≤ k)) := by
   unfold Under.write at h
@@ -60,7 +60,7 @@ theorem under_write_spec (u : Under) (p : Bytes) (u' : Under) (n : Nat) (e : Boo
         exact hJ
       · simp only [Prod.mk.injEq] at h
         obtain ⟨rfl, rfl, rfl⟩ := h
-        refine ⟨by simp, by simp, by simp, by simp, ?_⟩
+        refine ⟨by simp, by omega, by simp, by simp, ?_⟩
         intro k' a0 hk' hJ
         simp only [Option.some.injEq] at hk'
         subst hk'
@@ -71,6 +71,31 @@ theorem under_write_spec (u : Under) (p : Bytes) (u' : Under) (n : Nat) (e : Boo
         · have : k - u.accepted.length = 0 := by omega
           simp only [this, List.take_zero, List.append_nil]
           exact hJ
+
+theorem writeChecked_eq (u : Under) (p : Bytes) :
+    u.writeChecked p = ((u.write p).1, (u.write p).2.1, ((u.write p).2.2 || decide ((u.write p).2.1 < p.length))) := rfl
+
+theorem under_write_spec (u : Under) (p : Bytes) (u' : Under) (n : Nat) (e : Bool)
+    (h : u.writeChecked p = (u', n, e)) :
+    u'.accepted = u.accepted ++ p.take n ∧
+    (e = false → n = p.length) ∧
+    u'.limit = u.limit ∧
+    (u.limit = none → e = false) ∧
+    (∀ k a0, u.limit = some k → (u.accepted = a0 ∨ u.accepted.length ≤ k) →
+      (u'.accepted = a0 ∨ u'.accepted.length ≤ k)) := by
+  rw [writeChecked_eq] at h
+  rcases hw : u.write p with ⟨u1, n1, e1⟩
+  rw [hw] at h
+  simp only [Prod.mk.injEq] at h
+  obtain ⟨rfl, rfl, rfl⟩ := h
+  obtain ⟨hacc, hle, hlim, hnl, hJ⟩ := under_write_raw _ _ _ _ _ hw
+  refine ⟨hacc, ?_, hlim, ?_, hJ⟩
+  · intro he
+    simp only [Bool.or_eq_false_iff, decide_eq_false_iff_not] at he
+    omega
+  · intro hl
+    obtain ⟨h1, h2⟩ := hnl hl
+    simp [h1, h2]
 
 /-- What every buffer operation preserves, whether or not it fails. `a0` is the ghost value "what the writer held when
     the render started"; `J` says the writer has either received nothing yet or is within its limit. -/
@@ -137,7 +162,7 @@ theorem step_append (a0 : Bytes) (b : BW) (q : Bytes) (hb : b.err = false) :
   · simp [cont]
 
 theorem step_direct (a0 : Bytes) (b : BW) (p : Bytes) (u' : Under) (n : Nat) (e : Bool)
-    (hb : b.err = false) (hbuf : b.buf = []) (h : b.u.write p = (u', n, e)) :
+    (hb : b.err = false) (hbuf : b.buf = []) (h : b.u.writeChecked p = (u', n, e)) :
     Step a0 b { b with u := u', err := e } (p.take n) := by
   obtain ⟨hacc, _, hlim, hnl, hJ⟩ := under_write_spec _ _ _ _ _ h
   refine ⟨⟨rfl, hlim, fun _ => hb, ?_, ?_, ?_⟩, ?_, ⟨p.take n, List.prefix_refl _, ?_⟩⟩
@@ -158,7 +183,7 @@ theorem step_flush (a0 : Bytes) (b : BW) : Step a0 b b.flush [] := by
     simp only [he, Bool.false_eq_true, if_false]
     split
     · exact Step.refl_nil a0 b
-    · rcases h : b.u.write b.buf with ⟨u', n, e⟩
+    · rcases h : b.u.writeChecked b.buf with ⟨u', n, e⟩
       obtain ⟨hacc, hn, hlim, hnl, hJ⟩ := under_write_spec _ _ _ _ _ h
       simp only []
       have hcore : ∀ (buf' : Bytes) (e' : Bool), (b.u.limit = none → e' = false) →
@@ -197,7 +222,7 @@ theorem flush_ok (b : BW) (h : b.flush.err = false) : b.flush.buf = [] := by
     · simp only [hb, if_true] at h ⊢
       simpa using hb
     · simp only [hb] at h ⊢
-      rcases hw : b.u.write b.buf with ⟨u', n, e⟩
+      rcases hw : b.u.writeChecked b.buf with ⟨u', n, e⟩
       simp only [hw] at h ⊢
       by_cases hc : (e || decide (n < b.buf.length)) = true
       · simp [hc] at h
@@ -234,7 +259,7 @@ theorem wsa_step (a0 : Bytes) : ∀ (fuel : Nat) (b : BW) (p : Bytes), 0 < b.cap
       · rename_i hd
         simp only [Bool.and_eq_true, List.isEmpty_iff] at hd
         obtain ⟨hbuf, _⟩ := hd
-        rcases hw : b.u.write p with ⟨u', n, e⟩
+        rcases hw : b.u.writeChecked p with ⟨u', n, e⟩
         have hs := step_direct a0 b p u' n e he hbuf hw
         obtain ⟨_, hnp, _, _, _⟩ := under_write_spec _ _ _ _ _ hw
         simp only []
@@ -544,5 +569,45 @@ theorem render_pool_independent (ops : List ROp) (pooled : BW) (u : Under) :
     render false ops pooled u = render false ops { cap := pooled.cap } u := by
   have : pooled.reset u = ({ cap := pooled.cap } : BW).reset u := rfl
   rw [render_eq, render_eq, this]
+
+/-- Without the checking writer a silent zero-writer at its limit leaves bufio's large-write loop where it was: same
+    writer state, no error, the same bytes still to write - the loop condition holds again, for ever. -/
+theorem largeStepUnchecked_stuck (b : BW) (p : Bytes) (k : Nat) (hl : b.u.limit = some k) (hk : k ≤ b.u.accepted.length)
+    (hz : b.u.zeroWrite = true) (hs : b.u.silent = true) (he : b.err = false) (hp : p ≠ []) :
+    b.largeStepUnchecked p = (b, p) := by
+  have hpl : 0 < p.length := List.length_pos_iff.mpr hp
+  have hw : b.u.write p = (b.u, 0, false) := by
+    unfold Under.write
+    simp only [hl]
+    rw [if_neg (by omega), if_pos hz, hs]
+    rfl
+  unfold BW.largeStepUnchecked
+  rw [hw]
+  cases b
+  simp_all
+
+/-- With the checking writer the same call ends the write with the sticky error set and nothing accepted. -/
+theorem write_silent_zero_reported (b : BW) (p : Bytes) (k : Nat) (hl : b.u.limit = some k) (hk : k ≤ b.u.accepted.length)
+    (hz : b.u.zeroWrite = true) (hs : b.u.silent = true) (he : b.err = false) (hb : b.buf = []) (hp : b.cap < p.length) :
+    (b.write p).err = true ∧ (b.write p).u.accepted = b.u.accepted := by
+  have hpl : 0 < p.length := by omega
+  have hw : b.u.write p = (b.u, 0, false) := by
+    unfold Under.write
+    simp only [hl]
+    rw [if_neg (by omega), if_pos hz, hs]
+    rfl
+  have hwc : b.u.writeChecked p = (b.u, 0, true) := by
+    rw [writeChecked_eq, hw]
+    simp [hpl]
+  have hb' : b.write p = { b with err := true } := by
+    unfold BW.write
+    rw [BW.writeAux]
+    have hav : b.available < p.length := by simp [BW.available, hb]; exact hp
+    simp only [hav, he, hb, hwc, decide_true, Bool.not_false, Bool.and_self, if_true, List.isEmpty_nil,
+      Bool.not_true, Bool.and_false, Bool.false_eq_true, if_false, List.drop_zero]
+    rw [BW.writeAux]
+    simp
+  rw [hb']
+  exact ⟨rfl, rfl⟩
 
 end TemplVerif.Proofs.Buf
